@@ -9,6 +9,7 @@ import (
 	"math"
 	"regexp"
 	"strings"
+	"unicode/utf8"
 
 	"github.com/issue9/mux/v9/types"
 )
@@ -283,15 +284,19 @@ func longestPrefix(s1, s2 string) int {
 
 	startIndex := -10
 	endIndex := -10
+	hasRule := false
 	state := endByte
 	for i := 0; i < l; i++ {
 		switch s1[i] {
 		case startByte:
 			startIndex = i
 			state = startByte
+			hasRule = false
 		case endByte:
 			state = endByte
 			endIndex = i
+		case separatorByte:
+			hasRule = hasRule || state == startByte
 		}
 
 		if s1[i] != s2[i] {
@@ -299,6 +304,14 @@ func longestPrefix(s1, s2 string) int {
 				endIndex == i || // s1 的参数刚好在此结束，s2 的参数还未结束，同样处于参数中间。
 				endIndex+1 == i { // 命名参数之后必须要有一个或以上的普通字符
 				return startIndex
+			}
+			if hasRule { // 规则之后的内容会被编译进正则表达式，不能从多字节字符的中间分隔。
+				for i > endIndex+1 && !utf8.RuneStart(s1[i]) {
+					i--
+				}
+				if endIndex+1 == i {
+					return startIndex
+				}
 			}
 			return i
 		}
